@@ -23,6 +23,13 @@ pub struct Pools {
     pub width: Vec<char>,
     pub ctx: Vec<char>,
     pub norm: Vec<char>,
+    /// every character with a canonical decomposition (16.0.0)
+    pub decomposable: Vec<char>,
+    /// characters that occur after the first position of some canonical decomposition (marks, but also the
+    /// ccc=0 second halves of two-part vowel signs, Hangul V/T jamo, ...)
+    pub compose_tail: Vec<char>,
+    /// ccc=0 members of compose_tail together with the first characters they compose with
+    pub starter_pairs: Vec<(char, char)>,
     pub rtl: Vec<char>,
     pub by_bidi16: Vec<Vec<char>>,
     pub by_id: Vec<Vec<char>>,
@@ -157,6 +164,26 @@ fn build_pools() -> Pools {
             }
         }
     }
+    // decomposition material
+    let mut decomposable: Vec<char> = Vec::new();
+    let mut compose_tail: Vec<char> = Vec::new();
+    let mut starter_pairs: Vec<(char, char)> = Vec::new();
+    for cp in norm.iter() {
+        let c = char::from_u32(*cp).unwrap();
+        decomposable.push(c);
+        let dd: Vec<char> = ucd::nfd_icu(&c.to_string()).chars().collect();
+        for w in dd.windows(2) {
+            if !compose_tail.contains(&w[1]) {
+                compose_tail.push(w[1]);
+            }
+            if d.u16.ccc[w[1] as usize] == 0 && !starter_pairs.contains(&(w[0], w[1])) && starter_pairs.len() < 400 {
+                starter_pairs.push((w[0], w[1]));
+            }
+        }
+    }
+    for (l, v) in [(0x1100u32, 0x1161u32), (0x1112, 0x1175), (0xac00, 0x11a8), (0xd788, 0x11c2)] {
+        starter_pairs.push((char::from_u32(l).unwrap(), char::from_u32(v).unwrap()));
+    }
     let mut cased = ch(&[0x41, 0x5a, 0xc9, 0x130, 0x1c4, 0x1c5, 0x1c8, 0x1f88, 0x1fbc, 0x3a3, 0x410, 0x1e9e, 0x2126, 0x212a, 0x2160, 0x24b6,
         0x2c00, 0x13a0, 0xab70, 0x10400, 0x1e900, 0x118a0, 0x16e40, 0x10c80, 0xff21]);
     for c in spread(&cased_all, 150) {
@@ -203,7 +230,7 @@ fn build_pools() -> Pools {
         }
     }
     Pools {
-        general, simple, id_friendly, id_valid, ff_valid, cased, zs, nfkc_space, compat_ff, width, ctx, norm: norm_pool, rtl,
+        general, simple, id_friendly, decomposable, compose_tail, starter_pairs, id_valid, ff_valid, cased, zs, nfkc_space, compat_ff, width, ctx, norm: norm_pool, rtl,
         by_bidi16, by_id, by_ff, by_gc63, by_jt, virama,
     }
 }
@@ -267,6 +294,41 @@ pub fn lens(c: BoxedStrategy<char>) -> BoxedStrategy<String> {
     ]
     .prop_map(s_of)
     .boxed()
+}
+
+/// Respell a generated string: sometimes fully decomposed (NFD / NFKD), sometimes one character decomposed,
+/// sometimes a composing pair of two STARTERS (two-part vowel signs, Hangul jamo) inserted
+pub fn respelled(base: BoxedStrategy<String>) -> BoxedStrategy<String> {
+    let pairs: &'static [(char, char)] = &pools().starter_pairs;
+    (base, 0u8..20, 0u32..=u32::MAX, 0u32..=u32::MAX)
+        .prop_map(move |(s, mode, r1, r2)| match mode {
+            0..=9 => s,
+            10 | 11 => ucd::nfd_icu(&s),
+            12 => ucd::nfkd_icu(&s),
+            13 | 14 => {
+                // decompose one character
+                let cs: Vec<char> = s.chars().collect();
+                if cs.is_empty() {
+                    return s;
+                }
+                let at = ((r1 as u64 * cs.len() as u64) >> 32) as usize;
+                let mut out = String::new();
+                for (i, c) in cs.iter().enumerate() {
+                    if i == at { out.push_str(&ucd::nfd_icu(&c.to_string())) } else { out.push(*c) }
+                }
+                out
+            }
+            _ => {
+                // insert a composing pair of starters
+                let (a, b) = pairs[((r1 as u64 * pairs.len() as u64) >> 32) as usize];
+                let mut cs: Vec<char> = s.chars().collect();
+                let at = ((r2 as u64 * (cs.len() as u64 + 1)) >> 32) as usize;
+                cs.insert(at, b);
+                cs.insert(at, a);
+                cs.into_iter().collect()
+            }
+        })
+        .boxed()
 }
 
 /// Strings that are mostly valid for the given pool, with 0..=2 risky characters injected
